@@ -50,6 +50,7 @@ type Opts struct {
 	Drought      bool // long dry spells
 	BulkExplicit bool // explicit bulk density values (csv soil)
 	HighCorg     bool // organic carbon up to 6 %
+	BeginMonth   int  // start in this month of the start year (0 = see BeginAnyDay)
 }
 
 func pick[T any](r *rand.Rand, xs []T) T { return xs[r.Intn(len(xs))] }
@@ -137,6 +138,9 @@ func Random(r *rand.Rand, name string, o Opts) *Project {
 		}
 	} else {
 		begin = DayNum(c.StartYear, 8, 1) + r.Intn(90)
+	}
+	if o.BeginMonth > 0 {
+		begin = DayNum(c.StartYear, o.BeginMonth, 1) + r.Intn(28)
 	}
 	end := begin + o.Years*365 - between(r, 0, 200)
 	if end < begin+120 {
